@@ -242,3 +242,46 @@ def gen_chain(rng, nvars=None, per_layer=None, dom_max=None, rub=None, dominance
             I.rub.append((max(hs) + extra) if hs else -1000)
     I.domkind = 0
     return I
+
+
+def gen_relaxed_improves(rng, width=None):
+    """Directed family: the RELAXED diagram of the root finds a solution the restricted one misses, while being inexact.
+    Layer 1 (never merged by a relaxed compilation, truncated by a restricted one) is wider than the width; the optimum goes through its
+    LOWEST ranked state `a`, whose only successor `b` is the HIGHEST ranked state of layer 2 (kept exact when layer 2 is squashed at
+    width >= 2); the other layer-2 states are merged and, thanks to the slack, carry the best (relaxed) terminal. So after the relaxed
+    compilation: best exact value = optimum > incumbent, best node under a merged node, `a` has no inexact child (it is in no frontier
+    cut-set). States are ranked lexicographically by id: ids are assigned accordingly."""
+    I = Inst()
+    w = width if width is not None else rng.choice([2, 2, 3])
+    n = rng.choice([3, 3, 4])
+    I.nvars = n; I.order = list(range(n)); I.initval = rng.range(-2, 3)
+    k1 = w + rng.range(1, 3)                    # layer 1 wider than the width
+    k2 = w + rng.range(1, 2)                    # layer 2 wider than width - 1 (so that something is merged)
+    # ids: root 0; layer 1 = 1..k1 (a = 1, the lowest); layer 2 = k1+1 .. k1+k2 (b = the highest); deeper layers: one or two states each
+    l1 = list(range(1, k1 + 1)); l2 = list(range(k1 + 1, k1 + k2 + 1)); a = l1[0]; b = l2[-1]
+    nb = k1 + k2 + 1
+    deeper = []
+    for _ in range(n - 2):
+        wd = rng.range(1, 2); deeper.append(list(range(nb, nb + wd))); nb += wd
+    I.nbase = nb; I.init = 0
+    big = rng.range(6, 12)
+    # root -> layer 1: value v leads to l1[v]
+    for v, d in enumerate(l1): I.trans.append((0, 0, v, d, rng.range(0, 3)))
+    # a -> b only, with a large cost: the optimum
+    I.trans.append((1, a, 0, b, big + rng.range(4, 8)))
+    # the other layer-1 states go to the non-b states of layer 2 with small costs (1 or 2 transitions each)
+    for s_ in l1[1:]:
+        for v in range(rng.range(1, 2)):
+            I.trans.append((1, s_, v, rng.choice(l2[:-1]), rng.range(0, 4)))
+    # layer 2 onwards: chains of small costs down to the terminal layer
+    prev = l2
+    for j, lay in enumerate(deeper):
+        x = 2 + j
+        for s_ in prev:
+            for v in range(rng.range(1, 2)):
+                I.trans.append((x, s_, v, rng.choice(lay), rng.range(0, 3)))
+        prev = lay
+    I.slack = rng.range(big + 10, big + 20)     # merged arcs are over-estimated by more than the optimum's margin
+    I.rubkind = 0; I.domkind = 0
+    I.width_hint = w
+    return I
